@@ -65,6 +65,7 @@ type Cell struct {
 	Typ    types.Type
 	ID     int
 	Escape bool
+	Synth  *Sort // synthetic ghost cell holding one term of this sort (map iteration state)
 }
 type CellPtr struct{ C *Cell }
 type FieldPtr struct {
